@@ -574,6 +574,25 @@ func c17Geomean(c *Ctx, p *Prog) {
 				if call, ok := in.(*ssa.Call); ok {
 					if bi, ok := call.Call.Value.(*ssa.Builtin); ok && bi.Name() == "append" {
 						appends = true
+						// or: the append happens only when slices.Contains reported the string absent
+						for _, f := range factsAt(b) {
+							if cc, ok := f.Cond.(*ssa.Call); ok && !f.True {
+								name := ""
+								if sc := cc.Call.StaticCallee(); sc != nil {
+									if o := sc.Origin(); o != nil {
+										sc = o
+									}
+									if sc.Pkg != nil {
+										name = sc.Pkg.Pkg.Path() + "." + sc.Name()
+									} else if sc.Object() != nil && sc.Object().Pkg() != nil {
+										name = sc.Object().Pkg().Path() + "." + sc.Name()
+									}
+								}
+								if name == "slices.Contains" || name == "slices.Index" {
+									earlyReturn = true
+								}
+							}
+						}
 					}
 				}
 			})
